@@ -9,7 +9,11 @@ def parseSReq (j : Json) : P Req := do
   let lost ← match optFld j "lost" with
     | some v => (do let n ← nat v; pure (n != 0))
     | Option.none => pure false
-  pure { unit := ← fNat j "unit", addr := ← fNat j "addr", count := ← fNat j "count", lat := ← fNat j "lat", lost := lost }
+  let bcast ← match optFld j "bcast" with
+    | some v => (do let n ← nat v; pure (n != 0))
+    | Option.none => pure false
+  pure { unit := ← fNat j "unit", addr := ← fNat j "addr", count := ← fNat j "count", lat := ← fNat j "lat", lost := lost,
+         bcast := bcast }
 
 def parseLockScope (s : String) : P LockScope :=
   match s with
@@ -23,6 +27,7 @@ def parseLockScope (s : String) : P LockScope :=
   | "sendOnly" => pure .sendOnly
   | "leakOnFail" => pure .leakOnFail
   | "lockOnlyWhenCold" => pure .lockOnlyWhenCold
+  | "broadcastOutside" => pure .broadcastOutside
   | o => throw s!"bad lock scope {o}"
 
 def jSMsg : Msg → Json
@@ -33,6 +38,7 @@ def jSResult : Result → Json
   | .ok tid unit m => Json.mkObj [("tid", jNat tid), ("unit", jNat unit), ("msg", jSMsg m)]
   | .err e => jErr e
   | .raised e => Json.mkObj [("raised", Json.str e.name)]
+  | .bcastSent => Json.mkObj [("bcast", jNat 1)]
 
 def jB01 (b : Bool) : Json := jNat (if b then 1 else 0)
 
@@ -96,7 +102,9 @@ def opSched (j : Json) : P Json := do
   let served := (List.range n).all (fun t =>
     decide (((s.threads t).results.map (·.1)) = reqs t) &&
     (s.threads t).results.all (fun x =>
-      (!x.1.lost && decide (Spec.OwnReply x)) || (x.1.lost && decide (x.2.2 = Result.err PyErr.modbusIO)) ||
+      (x.1.bcast && decide (x.2.2 = Result.bcastSent)) ||
+      (!x.1.bcast && !x.1.lost && decide (Spec.OwnReply x)) ||
+      (!x.1.bcast && x.1.lost && decide (x.2.2 = Result.err PyErr.modbusIO)) ||
       (anyRefused && decide (x.2.2 = Result.raised PyErr.modbusExc))))
   pure (Json.mkObj [
     ("trace", jArr (s.trace.reverse.map (fun e => jArr [jNat e.1, Json.str e.2.name]))),
